@@ -77,6 +77,16 @@ CHECKS = {
         note="Transport is faithful in-memory delivery (fragmentation is C06/C17's business); values outside the enumerated atoms/tree sizes are not covered.",
         design_ref="DESIGN.md section 3 C01",
     ),
+    "C11": dict(
+        engine="S+N",
+        technique="exhaustive enumeration of call sequences (histories) with a differential oracle: batch vs oneway batch vs sequential on identical fresh objects through the real Proxy/Daemon",
+        text="Every call sequence of length 0..3 (quick) / 0..4 (thorough) over an 11-letter alphabet mixing succeeding methods (positional and keyword arguments), three "
+             "raising methods, an unexposed, a private and a missing member and a call with bad arguments, for each of the four serializers, is executed call by call, "
+             "as a batch and as a oneway batch on three identical fresh objects; the result prefix, the failing call's exception class and args and its position (or "
+             "failure on submission), the execution logs and the final object states must coincide, the oneway batch must return None, and nothing unexposed may run.",
+        note="Differential oracle: no hand-written expected values; faithful in-memory transport; sequence length bounded.",
+        design_ref="DESIGN.md section 3 C11",
+    ),
 }
 
 NOT_YET = {}
